@@ -10,11 +10,30 @@
 // Steps whose operand does not exist (send on a dropped sender slot, poll of a dropped receiver …)
 // are no-ops, so a K-step schedule also covers every shorter schedule.
 //
-// Two counting wakers (A, B) are used; each poll picks one symbolically. `parked` remembers which
-// waker the most recent `Pending` poll passed. The Future contract obliges the channel to wake the
-// waker of the MOST RECENT poll; "poll never returns Pending without registering the waker" is
-// therefore checked as: every later send / notify / last-sender-drop increases the wake counter of
-// exactly that waker.
+// Counting wakers: `parked` remembers which waker the most recent `Pending` poll passed. The Future
+// contract obliges the channel to wake the waker of the MOST RECENT poll; "poll never returns
+// Pending without registering the waker" is therefore checked as: every later send / notify /
+// last-sender-drop increases the wake counter of exactly that waker. Harnesses with `TWO = true`
+// choose between two wakers (A, B) at every poll (re-registration A -> B is then part of the
+// schedule space); `TWO = false` always polls with waker A (half the pointer case splits, so one
+// more schedule step fits into the same time/memory budget).
+//
+// Measured cost drivers (cbmc --program-only profile of the SSA steps per function) and what was
+// done about them:
+//  * drop glue behind every Arc: after the first merge of two schedule branches every reference
+//    count is symbolic, so CBMC explored Arc::drop_slow (destruction of the shared state, layout
+//    arithmetic, deallocation) at every drop of a sender / receiver / waker / receive-future — more
+//    than 60 % of the formula (oneshot k=4: 280 s / 5 GB). `AtomicUsize::fetch_sub` is stubbed to
+//    decrement but never report "last reference" (support_cs.rs): oneshot k=4: 90 s / 1.5 GB.
+//    `CountWake::wake` forgets its Arc for the same reason.
+//  * the second waker doubles the pointer case splits of every waker operation (k=4: notification
+//    170 s vs 80 s, mpsc 215 s vs 100 s): quick harnesses of notification/mpsc use one waker.
+//  * mpsc with a non-zero-sized element: the queue length is symbolic, CBMC explores
+//    VecDeque::grow + handle_capacity_increase (symbolic-size allocation and copies) at every
+//    send: > 12 GB for k=3 (also for a tree of 81 concrete paths). Schedules use element type ();
+//    FIFO order of u8 values is checked on one operation sequence with growth asserted unreachable.
+//  * cost grows ~1.5-2.5x per schedule step; every harness has 10-15 incremental SAT calls
+//    (reachability checks + covers) on a formula of 1-2 M variables.
 use alloc::sync::Arc;
 use core::future::Future;
 use core::pin::Pin;
@@ -43,12 +62,12 @@ impl Wk {
         let (cb, wb) = counting_waker();
         Wk { ca, wa, cb, wb, parked: 0, a0: 0, b0: 0 }
     }
-    /// Symbolic choice of the waker for the next poll (1 = A, 2 = B).
-    fn pick(&self) -> u8 {
-        if kani::any() {
-            1
-        } else {
+    /// Choice of the waker for the next poll (1 = A, 2 = B): symbolic if `two`, else always A.
+    fn pick(&self, two: bool) -> u8 {
+        if two && kani::any() {
             2
+        } else {
+            1
         }
     }
     fn waker(&self, which: u8) -> &Waker {
@@ -81,7 +100,7 @@ fn poll_unpin<F: Future + Unpin>(f: &mut F, w: &Waker) -> Poll<F::Output> {
 /// One poll of the mpsc receiver. `MpscReceiver::receive` is an `async fn` whose only state is a
 /// clone of the shared `Arc` (MpscReceiverFuture { inner }), so polling a fresh `receive()` future
 /// once is the same atomic operation as re-polling a kept one.
-fn poll_mpsc(rx: &MpscReceiver<u8>, w: &Waker) -> Poll<Option<u8>> {
+fn poll_mpsc<T>(rx: &MpscReceiver<T>, w: &Waker) -> Poll<Option<T>> {
     let mut cx = Context::from_waker(w);
     let fut = core::pin::pin!(rx.receive());
     fut.poll(&mut cx)
@@ -94,7 +113,7 @@ fn poll_mpsc(rx: &MpscReceiver<u8>, w: &Waker) -> Poll<Option<u8>> {
 /// Symbolic schedule over {send(v), drop sender, poll(waker A|B), drop receiver}.
 /// `OneshotSender::send(self, v)` is two back-to-back critical sections (store + wake, then the
 /// `Drop` of `self`); they are executed without an interleaved receiver step (stated in @assume).
-fn oneshot_schedule<const K: usize>() {
+fn oneshot_schedule<const K: usize, const TWO: bool>() {
     let (tx, rx) = oneshot::<u8>();
     let mut tx = Some(tx);
     let mut rx: Option<OneshotReceiver<u8>> = Some(rx);
@@ -105,7 +124,8 @@ fn oneshot_schedule<const K: usize>() {
     let mut done = false; // the receiver future has completed
     let mut got_value = false;
     let mut got_disc = false;
-    let mut woken_path = false;
+    let mut woken_by_send = false;
+    let mut woken_by_drop = false;
     let mut rereg = false;
 
     for _ in 0..K {
@@ -119,8 +139,10 @@ fn oneshot_schedule<const K: usize>() {
                     s.send(v);
                     pending = Some(v);
                     sender_live = false;
-                    assert!(wk.woken_if_parked(), "C34: oneshot send wakes the parked receiver");
-                    woken_path |= wk.parked != 0;
+                    if rx.is_some() {
+                        assert!(wk.woken_if_parked(), "C34: oneshot send wakes the parked receiver");
+                        woken_by_send |= wk.parked != 0;
+                    }
                     wk.parked = 0;
                 }
             }
@@ -128,15 +150,17 @@ fn oneshot_schedule<const K: usize>() {
                 if let Some(s) = tx.take() {
                     drop(s);
                     sender_live = false;
-                    assert!(wk.woken_if_parked(), "C34: oneshot sender drop wakes the parked receiver");
-                    woken_path |= wk.parked != 0;
+                    if rx.is_some() {
+                        assert!(wk.woken_if_parked(), "C34: oneshot sender drop wakes the parked receiver");
+                        woken_by_drop |= wk.parked != 0;
+                    }
                     wk.parked = 0;
                 }
             }
             2 => {
                 if !done {
                     if let Some(r) = rx.as_mut() {
-                        let which = wk.pick();
+                        let which = wk.pick(TWO);
                         match poll_unpin(r, wk.waker(which)) {
                             Poll::Ready(Ok(x)) => {
                                 assert!(pending == Some(x), "C34: oneshot delivers exactly the sent value, once");
@@ -175,136 +199,122 @@ fn oneshot_schedule<const K: usize>() {
             }
         }
     }
-    kani::cover!(got_value && woken_path, "oneshot: parked receiver woken by send, value received");
-    kani::cover!(got_disc && woken_path, "oneshot: parked receiver woken by sender drop, disconnection reported");
-    kani::cover!(rereg && woken_path, "oneshot: waker re-registered (A then B) and the latest one woken");
+    kani::cover!(got_value && woken_by_send && (!TWO || rereg), "oneshot: parked receiver (two wakers: re-registered A<->B) woken by send, value received");
+    kani::cover!(got_disc && woken_by_drop, "oneshot: parked receiver woken by sender drop, disconnection reported");
     kani::cover!(rx.is_none() && !sender_live, "oneshot: sender used after receiver dropped");
     core::mem::forget((tx, rx, wk));
-}
-
-// @check props=C34 tier=quick
-// @desc oneshot: for every schedule of 5 atomic operations from {send(v), drop sender, poll with waker A|B, drop receiver}: the value is delivered exactly once and unchanged; send / sender-drop while the receiver is parked wakes the most recently registered waker; poll is Ready(Err) iff the sender was dropped without sending and Pending iff the sender is alive and nothing was sent
-// @bounds k = 5 operations (shorter schedules included as no-op steps), 1 sender, 1 receiver, 2 wakers, value any u8; unwind 6 = k + 1 (only loop: the schedule)
-// @assume critical_section::acquire/release stubbed by no-ops (support_cs.rs): a critical section is a block no other operation interleaves with; true parallelism inside it is outside the claim
-// @assume the two critical sections of OneshotSender::send(self) (store+wake, then Drop of self) run back to back (send consumes the sender, a receiver step between them sees data = Some and returns Ready(Ok))
-// @enc dcps::channels::oneshot::oneshot
-// @enc dcps::channels::oneshot::OneshotSender::send
-// @enc <dcps::channels::oneshot::OneshotSender as Drop>::drop
-// @enc <dcps::channels::oneshot::OneshotReceiver as Future>::poll
-#[kani::proof]
-#[kani::unwind(6)]
-#[kani::stub(critical_section::acquire, super::support_cs::cs_acquire)]
-#[kani::stub(critical_section::release, super::support_cs::cs_release)]
-fn c34_oneshot_schedule_k5() {
-    oneshot_schedule::<5>();
 }
 
 // =====================================================================================
 // mpsc
 // =====================================================================================
 
-const NS: usize = 3; // sender slots
-
-struct MpscWorld<const K: usize> {
-    tx: [Option<MpscSender<u8>>; NS],
-    rx: Option<MpscReceiver<u8>>,
+/// World of the mpsc schedules: NS sender slots, one receiver, shadow FIFO of capacity K.
+/// `T = u8`: value identity / FIFO order is observable. `T = ()`: the queue degenerates to a
+/// counter (exactly-once = as many receives as sends) — used for the symbolic schedules, because
+/// with a non-zero-sized `T` the queue length is symbolic after the first merge and CBMC then
+/// explores `VecDeque::grow` + `handle_capacity_increase` (memcpy/memmove of symbolic length on the
+/// 64-element buffer) at every send: measured > 12 GB for 3 steps.
+struct MpscWorld<T, const K: usize, const NS: usize, const TWO: bool> {
+    tx: [Option<MpscSender<T>>; NS],
+    rx: Option<MpscReceiver<T>>,
     wk: Wk,
     // shadow model
-    fifo: [u8; K],
+    fifo: [Option<T>; K],
     head: usize,
     tail: usize,
     live: usize,
     // witnesses
     woken_path: bool,
-    got_two_in_order: u8,
+    got_in_order: u8,
     cloned_send: bool,
 }
 
-impl<const K: usize> MpscWorld<K> {
+impl<T: Copy + PartialEq + kani::Arbitrary, const K: usize, const NS: usize, const TWO: bool> MpscWorld<T, K, NS, TWO> {
     fn new() -> Self {
-        let (tx0, rx) = mpsc_channel::<u8>();
+        let (tx0, rx) = mpsc_channel::<T>();
+        let mut tx: [Option<MpscSender<T>>; NS] = [const { None }; NS];
+        tx[0] = Some(tx0);
         MpscWorld {
-            tx: [Some(tx0), None, None],
+            tx,
             rx: Some(rx),
             wk: Wk::new(),
-            fifo: [0; K],
+            fifo: [None; K],
             head: 0,
             tail: 0,
             live: 1,
             woken_path: false,
-            got_two_in_order: 0,
+            got_in_order: 0,
             cloned_send: false,
         }
     }
 
-    /// One symbolic step. `allow_zero`: may this step drop the last live sender?
-    /// `check_disc`: are the disconnection obligations (trigger of KF-C34-1) asserted?
-    fn step(&mut self, allow_zero: bool, check_disc: bool) {
-        let op: u8 = kani::any();
-        kani::assume(op < 5);
-        let i: usize = kani::any();
-        kani::assume(i < NS);
+    /// Trigger state of KF-C34-1: every sender is dropped, the queue is empty, the receiver exists.
+    fn disconnected_and_empty(&self) -> bool {
+        self.live == 0 && self.head == self.tail && self.rx.is_some()
+    }
+
+    fn op_send(&mut self, i: usize) {
         self.wk.snap();
-        match op {
-            0 => {
-                if let Some(s) = &self.tx[i] {
-                    let v: u8 = kani::any();
-                    let r = s.send(v);
-                    assert!(r.is_ok(), "C34: mpsc send on an open channel succeeds");
-                    self.fifo[self.tail] = v;
-                    self.tail += 1;
-                    if self.rx.is_some() {
-                        assert!(self.wk.woken_if_parked(), "C34: mpsc send wakes the parked receiver");
-                        self.woken_path |= self.wk.parked != 0;
-                    }
-                    self.wk.parked = 0;
-                    self.cloned_send |= i != 0;
-                }
+        if let Some(s) = &self.tx[i] {
+            let v: T = kani::any();
+            let r = s.send(v);
+            assert!(r.is_ok(), "C34: mpsc send on an open channel succeeds");
+            self.fifo[self.tail] = Some(v);
+            self.tail += 1;
+            if self.rx.is_some() {
+                assert!(self.wk.woken_if_parked(), "C34: mpsc send wakes the parked receiver");
+                self.woken_path |= self.wk.parked != 0;
             }
-            1 => {
-                let j: usize = kani::any();
-                kani::assume(j < NS);
-                if self.tx[j].is_none() {
-                    if let Some(s) = &self.tx[i] {
-                        let c = s.clone();
-                        self.tx[j] = Some(c);
-                        self.live += 1;
-                    }
-                }
-            }
-            2 => {
-                if self.tx[i].is_some() && (allow_zero || self.live > 1) {
-                    let s = self.tx[i].take();
-                    drop(s);
-                    self.live -= 1;
-                    if self.live == 0 && check_disc && self.rx.is_some() {
-                        assert!(
-                            self.wk.woken_if_parked(),
-                            "C34: mpsc drop of the last sender wakes the parked receiver"
-                        );
-                    }
-                }
-            }
-            3 => self.poll(check_disc),
-            _ => {
-                if let Some(r) = self.rx.take() {
-                    drop(r);
-                    self.wk.parked = 0;
-                }
+            self.wk.parked = 0;
+            self.cloned_send |= i != 0;
+        }
+    }
+
+    fn op_clone(&mut self, i: usize, j: usize) {
+        if self.tx[j].is_none() {
+            if let Some(s) = &self.tx[i] {
+                let c = s.clone();
+                self.tx[j] = Some(c);
+                self.live += 1;
             }
         }
     }
 
-    fn poll(&mut self, check_disc: bool) {
+    /// `keep_sender`: the last live sender is not dropped (prefix of the `__known` harness).
+    fn op_drop_sender(&mut self, i: usize, keep_sender: bool) {
+        self.wk.snap();
+        if self.tx[i].is_some() && !(keep_sender && self.live == 1) {
+            let s = self.tx[i].take();
+            drop(s);
+            self.live -= 1;
+            // negated trigger of KF-C34-1: the last sender is not dropped on an empty queue
+            kani::assume(!self.disconnected_and_empty());
+            if self.live == 0 && self.rx.is_some() {
+                // (queue not empty here, so the receiver cannot be parked: a send cleared it)
+                assert!(self.wk.woken_if_parked(), "C34: mpsc drop of the last sender wakes the parked receiver");
+            }
+        }
+    }
+
+    fn op_drop_receiver(&mut self) {
+        if let Some(r) = self.rx.take() {
+            drop(r);
+            self.wk.parked = 0;
+        }
+    }
+
+    /// One receiver poll with every obligation asserted (also the disconnection ones).
+    fn op_poll(&mut self) {
         if let Some(r) = &self.rx {
-            let which = self.wk.pick();
+            let which = self.wk.pick(TWO);
             match poll_mpsc(r, self.wk.waker(which)) {
                 Poll::Ready(Some(x)) => {
                     assert!(self.head < self.tail, "C34: mpsc never delivers a value that was not sent (or twice)");
-                    assert!(x == self.fifo[self.head], "C34: mpsc delivers in FIFO order");
+                    assert!(Some(x) == self.fifo[self.head], "C34: mpsc delivers in FIFO order");
                     self.head += 1;
-                    if self.got_two_in_order < 2 {
-                        self.got_two_in_order += 1;
+                    if self.got_in_order < 2 {
+                        self.got_in_order += 1;
                     }
                 }
                 Poll::Ready(None) => {
@@ -315,90 +325,102 @@ impl<const K: usize> MpscWorld<K> {
                 }
                 Poll::Pending => {
                     assert!(self.head == self.tail, "C34: mpsc never returns Pending while a value is queued");
-                    if check_disc {
-                        assert!(
-                            self.live > 0,
-                            "C34: mpsc poll reports disconnection when the queue is empty and every sender is dropped"
-                        );
-                    }
+                    assert!(
+                        self.live > 0,
+                        "C34: mpsc poll reports disconnection when the queue is empty and every sender is dropped"
+                    );
                     self.wk.parked = which;
                 }
             }
         }
     }
+
+    /// One symbolic step of the schedule. The trigger state of KF-C34-1 is assumed away as soon as
+    /// it would be entered (negated trigger), *before* the two obligations that concern it.
+    fn step(&mut self, keep_sender: bool) {
+        let op: u8 = kani::any();
+        kani::assume(op < 5);
+        let i: usize = kani::any();
+        kani::assume(i < NS);
+        match op {
+            0 => self.op_send(i),
+            1 => {
+                let j: usize = kani::any();
+                kani::assume(j < NS);
+                self.op_clone(i, j);
+            }
+            2 => self.op_drop_sender(i, keep_sender),
+            3 => {
+                self.op_poll();
+                // negated trigger of KF-C34-1: the queue is not drained after the last sender is gone
+                kani::assume(!self.disconnected_and_empty());
+            }
+            _ => self.op_drop_receiver(),
+        }
+    }
 }
 
-/// Negated trigger of KF-C34-1: every schedule is explored, including dropping the last sender and
-/// continuing (queued values must still come out in order), but the two obligations that concern
-/// the state "no live sender and empty queue" are left to the `__known` harness.
-fn mpsc_schedule_rest<const K: usize>() {
-    let mut w = MpscWorld::<K>::new();
+/// Negated trigger of KF-C34-1: every schedule that never reaches the state "every sender dropped
+/// and queue empty while the receiver exists" (dropping the last sender on a non-empty queue and
+/// receiving the queued values afterwards IS included, up to the poll that drains the queue).
+/// Every obligation is asserted, including the disconnection ones.
+fn mpsc_schedule_rest<const K: usize, const NS: usize, const TWO: bool>() {
+    let mut w = MpscWorld::<(), K, NS, TWO>::new();
     for _ in 0..K {
-        w.step(true, false);
+        w.step(false);
     }
-    kani::cover!(w.woken_path && w.got_two_in_order == 2, "mpsc: parked receiver woken, two values received in order");
-    kani::cover!(w.cloned_send && w.head > 0, "mpsc: value sent through a cloned sender was received");
-    kani::cover!(w.live == 0 && w.head > 0 && w.head == w.tail, "mpsc: queue drained after every sender was dropped");
+    kani::cover!(w.woken_path && w.got_in_order >= 1, "mpsc: parked receiver woken by send, value received");
+    kani::cover!(w.cloned_send && w.got_in_order >= 1, "mpsc: value sent through a cloned sender received");
+    kani::cover!(K < 4 || w.got_in_order == 2, "mpsc: two values received (K >= 4)");
+    kani::cover!(
+        w.live == 0 && w.tail > 0 && (K < 4 || w.head > 0),
+        "mpsc: last sender dropped on a non-empty queue (K >= 4: and a queued value received afterwards)"
+    );
     core::mem::forget(w);
 }
 
-/// Trigger of KF-C34-1: a symbolic prefix that keeps at least one sender alive, then every live
-/// sender is dropped (the last of these drops is the trigger), then one poll.
-fn mpsc_schedule_last_drop<const P: usize>() {
-    let mut w = MpscWorld::<P>::new();
+/// Trigger of KF-C34-1: a symbolic prefix of P steps that keeps at least one sender alive and ends
+/// with an empty queue and a live receiver; then every live sender is dropped (the last of these
+/// drops enters the trigger state), then one poll.
+fn mpsc_schedule_last_drop<const P: usize, const NS: usize>() {
+    let mut w = MpscWorld::<(), P, NS, false>::new();
     for _ in 0..P {
-        w.step(false, false);
+        w.step(true);
     }
-    assert!(w.live >= 1);
-    let was_parked = w.wk.parked != 0 && w.rx.is_some();
+    kani::assume(w.live >= 1 && w.head == w.tail && w.rx.is_some());
+    let was_parked = w.wk.parked != 0;
     for i in 0..NS {
         w.wk.snap();
         if let Some(s) = w.tx[i].take() {
             drop(s);
             w.live -= 1;
-            if w.live == 0 && w.rx.is_some() {
+            if w.live == 0 {
                 assert!(w.wk.woken_if_parked(), "C34: mpsc drop of the last sender wakes the parked receiver");
             }
         }
     }
-    let empty = w.head == w.tail;
-    w.poll(true);
-    kani::cover!(was_parked, "mpsc: receiver was parked when the last sender was dropped");
-    kani::cover!(empty && w.rx.is_some(), "mpsc: polled with empty queue after the last sender was dropped");
+    kani::cover!(was_parked && w.disconnected_and_empty(), "mpsc: receiver was parked when the last sender was dropped");
+    kani::cover!(!was_parked && w.disconnected_and_empty(), "mpsc: receiver was not parked when the last sender was dropped");
+    w.op_poll();
     core::mem::forget(w);
 }
 
-// @check props=C34 tier=quick
-// @desc mpsc (negated trigger of KF-C34-1): for every schedule of 5 atomic operations from {send(i,v), clone sender i->j, drop sender i, poll with waker A|B, drop receiver} on up to 3 senders: every poll returns exactly the head of the FIFO of sent-but-not-received values (each value once, in send order, also after all senders are gone), never Pending while a value is queued, Ready(None) only if queue empty and no sender left; a send while the receiver is parked wakes the most recently registered waker. Not asserted here (KF-C34-1): wake-up on last-sender drop and Ready(None) when queue empty and no sender left
-// @bounds k = 5 operations (shorter included), <= 3 live senders, 1 receiver, 2 wakers, values any u8; unwind 6 = k + 1 (schedule loop; VecDeque capacity 64 is never exceeded so it has no loop)
-// @assume critical_section::acquire/release stubbed by no-ops (support_cs.rs): a critical section is a block no other operation interleaves with
-// @assume each poll step polls a fresh MpscReceiver::receive() future once (the future's only state is a clone of the shared Arc)
-// @enc dcps::channels::mpsc::mpsc_channel
-// @enc dcps::channels::mpsc::MpscSender::send
-// @enc <dcps::channels::mpsc::MpscSender as Clone>::clone
-// @enc dcps::channels::mpsc::MpscReceiver::receive
-// @enc <dcps::channels::mpsc::MpscReceiverFuture as Future>::poll
-#[kani::proof]
-#[kani::unwind(6)]
-#[kani::stub(critical_section::acquire, super::support_cs::cs_acquire)]
-#[kani::stub(critical_section::release, super::support_cs::cs_release)]
-fn c34_mpsc_schedule_k5__rest() {
-    mpsc_schedule_rest::<5>();
-}
-
-// @check props=C34 tier=quick known=KF-C34-1
-// @desc mpsc (trigger of KF-C34-1): after any 3-operation prefix that keeps a sender alive, all senders are dropped and the receiver polls once: the drop of the last sender must wake a parked receiver and the poll must be Ready(None) when the queue is empty (Ready(Some(head)) otherwise). Expected to FAIL: MpscInner::is_closed is never set, MpscSender has no Drop impl
-// @bounds prefix of 3 symbolic operations, then <= 3 sender drops, then 1 poll; <= 3 senders; unwind 6
-// @assume critical_section::acquire/release stubbed by no-ops (support_cs.rs)
-// @assume trigger: the live-sender count reaches 0 (last MpscSender dropped)
-// @enc dcps::channels::mpsc::MpscSender::send
-// @enc <dcps::channels::mpsc::MpscReceiverFuture as Future>::poll
-#[kani::proof]
-#[kani::unwind(6)]
-#[kani::stub(critical_section::acquire, super::support_cs::cs_acquire)]
-#[kani::stub(critical_section::release, super::support_cs::cs_release)]
-fn c34_mpsc_last_sender_drop__known() {
-    mpsc_schedule_last_drop::<3>();
+/// FIFO order with observable values (`u8`), one operation sequence with symbolic values. A
+/// symbolic SCHEDULE with a non-zero-sized element type is out of reach (see MpscWorld); a tree-shaped
+/// exploration of {send, poll}^4 (81 paths) also exceeded 12 GB.
+fn mpsc_fifo_three_values() {
+    let mut w = MpscWorld::<u8, 3, 2, false>::new();
+    w.op_clone(0, 1);
+    w.op_send(0);
+    w.op_send(1);
+    w.op_poll();
+    w.op_send(1);
+    w.op_poll();
+    w.op_poll();
+    w.op_poll();
+    kani::cover!(w.head == 3 && w.tail == 3 && w.wk.parked != 0, "mpsc fifo: three values received, then Pending");
+    kani::cover!(w.head == 3 && w.fifo[0] != w.fifo[1] && w.fifo[1] != w.fifo[2], "mpsc fifo: three different values");
+    core::mem::forget(w);
 }
 
 // =====================================================================================
@@ -409,9 +431,10 @@ fn c34_mpsc_last_sender_drop__known() {
 /// A notification coalesces: `lo` = notifications guaranteed pending (0/1), `hi` = notifies not yet
 /// consumed. lo >= 1 => poll must be Ready(Ok); hi == 0 => poll must not be Ready(Ok); in between
 /// both a counting and a coalescing implementation are accepted.
-fn notification_schedule<const K: usize>() {
+fn notification_schedule<const K: usize, const NS: usize, const TWO: bool>() {
     let (tx0, rx) = notification();
-    let mut tx: [Option<NotificationSender>; NS] = [Some(tx0), None, None];
+    let mut tx: [Option<NotificationSender>; NS] = [const { None }; NS];
+    tx[0] = Some(tx0);
     let mut rx: Option<NotificationReceiver> = Some(rx);
     let mut wk = Wk::new();
     let mut lo: u8 = 0;
@@ -422,6 +445,7 @@ fn notification_schedule<const K: usize>() {
     let mut coalesced = false;
     let mut got_ok = false;
     let mut got_disc = false;
+    let mut cloned = false;
 
     for _ in 0..K {
         let op: u8 = kani::any();
@@ -451,6 +475,7 @@ fn notification_schedule<const K: usize>() {
                         let c = s.clone();
                         tx[j] = Some(c);
                         live += 1;
+                        cloned = true;
                     }
                 }
             }
@@ -473,7 +498,7 @@ fn notification_schedule<const K: usize>() {
             }
             3 => {
                 if let Some(r) = rx.as_mut() {
-                    let which = wk.pick();
+                    let which = wk.pick(TWO);
                     match poll_unpin(r, wk.waker(which)) {
                         Poll::Ready(Ok(())) => {
                             assert!(hi >= 1, "C34: notification never delivered without a notify (or more often than notified)");
@@ -508,15 +533,182 @@ fn notification_schedule<const K: usize>() {
     kani::cover!(woken_by_notify && got_ok, "notification: parked receiver woken by notify, poll Ready(Ok)");
     kani::cover!(woken_by_drop && got_disc, "notification: parked receiver woken by last-sender drop, disconnection reported");
     kani::cover!(coalesced && got_ok, "notification: two notifies before a poll (coalescing path)");
-    kani::cover!(rx.is_none() && hi > 0, "notification: notify after the receiver was dropped");
+    kani::cover!(cloned && live == 0, "notification: every sender dropped after a clone");
     core::mem::forget((tx, rx, wk));
 }
 
+// =====================================================================================
+// quick tier
+// =====================================================================================
+
 // @check props=C34 tier=quick
-// @desc notification: for every schedule of 5 atomic operations from {notify(i), clone sender i->j, drop sender i, poll with waker A|B, drop receiver} on up to 3 senders: a poll after >= 1 unconsumed notify is Ready(Ok) (coalescing accepted: n notifies give between 1 and n Ready(Ok)), never Ready(Ok) without a notify; notify / last-sender drop while the receiver is parked wakes the most recently registered waker; Ready(Err) iff nothing pending and every sender dropped (sender_count bookkeeping over clone/drop); otherwise Pending
-// @bounds k = 5 operations (shorter included), <= 3 live senders, 1 receiver, 2 wakers; unwind 6 = k + 1
-// @assume critical_section::acquire/release stubbed by no-ops (support_cs.rs): a critical section is a block no other operation interleaves with
-// @assume NotificationSender::clone is two steps (count += 1 in a critical section, then Arc clone) executed back to back
+// @desc oneshot: for every schedule of 4 atomic operations from {send(v), drop sender, poll with waker A|B, drop receiver}: the value is delivered exactly once and unchanged; send / sender-drop while the receiver is parked wakes the most recently registered waker; poll is Ready(Err) iff the sender was dropped without sending and Pending iff the sender is alive and nothing was sent; sender operations after the receiver is gone do not panic
+// @bounds k = 4 operations (shorter schedules included as no-op steps), 1 sender, 1 receiver, 2 wakers chosen symbolically at each poll, value any u8; unwind 5 = k + 1 (only loop: the schedule)
+// @assume critical_section::acquire/release stubbed by no-ops (support_cs.rs): a critical section is a block no other operation interleaves with; true parallelism inside it is outside the claim
+// @assume AtomicUsize::fetch_sub stubbed (support_cs.rs fetch_sub_never_last: decrements, reports "other references exist"): the shared state behind an Arc is never destroyed or freed; Drop impls of the channel handle types run for real, Arc::drop_slow and deallocation are outside the claim
+// @assume the two critical sections of OneshotSender::send(self) (store+wake, then Drop of self) run back to back (send consumes the sender; a receiver step between them sees data = Some and returns Ready(Ok))
+// @enc dcps::channels::oneshot::oneshot
+// @enc dcps::channels::oneshot::OneshotSender::send
+// @enc <dcps::channels::oneshot::OneshotSender as Drop>::drop
+// @enc <dcps::channels::oneshot::OneshotReceiver as Future>::poll
+#[kani::proof]
+#[kani::unwind(5)]
+#[kani::stub(critical_section::acquire, super::support_cs::cs_acquire)]
+#[kani::stub(critical_section::release, super::support_cs::cs_release)]
+#[kani::stub(core::sync::atomic::Atomic::<usize>::fetch_sub, super::support_cs::fetch_sub_never_last)]
+fn c34_oneshot_schedule_k4() {
+    oneshot_schedule::<4, true>();
+}
+
+// @check props=C34 tier=quick
+// @desc notification: for every schedule of 4 atomic operations from {notify(i), clone sender i->j, drop sender i, poll, drop receiver} on up to 2 senders: a poll after >= 1 unconsumed notify is Ready(Ok) (coalescing accepted: n notifies before a poll give between 1 and n Ready(Ok)), never Ready(Ok) without a notify; notify / last-sender drop while the receiver is parked wakes the registered waker; Ready(Err) iff nothing pending and every sender dropped (sender_count bookkeeping over clone/drop); otherwise Pending
+// @bounds k = 4 operations (shorter included), <= 2 live senders, 1 receiver, 1 waker; unwind 5 = k + 1
+// @assume critical_section::acquire/release stubbed by no-ops (support_cs.rs): a critical section is a block no other operation interleaves with; true parallelism inside it is outside the claim
+// @assume AtomicUsize::fetch_sub stubbed (support_cs.rs fetch_sub_never_last: decrements, reports "other references exist"): the shared state behind an Arc is never destroyed or freed; Drop impls of the channel handle types run for real, Arc::drop_slow and deallocation are outside the claim
+// @assume NotificationSender::clone is two steps (sender_count += 1 in a critical section, then Arc clone) executed back to back; the cloning thread holds a live sender, so the count is >= 1 in between
+// @enc dcps::channels::notification::notification
+// @enc dcps::channels::notification::NotificationSender::notify
+// @enc <dcps::channels::notification::NotificationSender as Clone>::clone
+// @enc <dcps::channels::notification::NotificationSender as Drop>::drop
+// @enc <dcps::channels::notification::NotificationReceiver as Future>::poll
+#[kani::proof]
+#[kani::unwind(5)]
+#[kani::stub(critical_section::acquire, super::support_cs::cs_acquire)]
+#[kani::stub(critical_section::release, super::support_cs::cs_release)]
+#[kani::stub(core::sync::atomic::Atomic::<usize>::fetch_sub, super::support_cs::fetch_sub_never_last)]
+fn c34_notification_schedule_k4() {
+    notification_schedule::<4, 2, false>();
+}
+
+// @check props=C34 tier=quick
+// @desc mpsc (negated trigger of KF-C34-1), element type (): for every schedule of 4 atomic operations from {send(i), clone sender i->j, drop sender i, poll, drop receiver} on up to 2 senders that never enters the state "every sender dropped, queue empty, receiver alive": send always succeeds; every poll is Ready(Some) iff the number of sends exceeds the number of receives (each sent element received exactly once, also after every sender is gone), Pending iff the queue is empty (and then a sender is alive), Ready(None) only if queue empty and no sender left; a send while the receiver is parked wakes the registered waker
+// @bounds k = 4 operations (shorter included), <= 2 live senders, 1 receiver, 1 waker, element type () (queue = counter; value identity / FIFO order: see c34_mpsc_fifo_three_values); unwind 5 = k + 1
+// @assume critical_section::acquire/release stubbed by no-ops (support_cs.rs): a critical section is a block no other operation interleaves with; true parallelism inside it is outside the claim
+// @assume AtomicUsize::fetch_sub stubbed (support_cs.rs fetch_sub_never_last: decrements, reports "other references exist"): the shared state behind an Arc is never destroyed or freed; Drop impls of the channel handle types run for real, Arc::drop_slow and deallocation are outside the claim
+// @assume each poll step polls a fresh MpscReceiver::receive() future once (the future's only state is a clone of the shared Arc)
+// @assume negated trigger of KF-C34-1: kani::assume(!(live senders == 0 && queue empty && receiver alive)) after every sender drop and every poll
+// @enc dcps::channels::mpsc::mpsc_channel
+// @enc dcps::channels::mpsc::MpscSender::send
+// @enc <dcps::channels::mpsc::MpscSender as Clone>::clone
+// @enc dcps::channels::mpsc::MpscReceiver::receive
+// @enc <dcps::channels::mpsc::MpscReceiverFuture as Future>::poll
+#[kani::proof]
+#[kani::unwind(5)]
+#[kani::stub(critical_section::acquire, super::support_cs::cs_acquire)]
+#[kani::stub(critical_section::release, super::support_cs::cs_release)]
+#[kani::stub(core::sync::atomic::Atomic::<usize>::fetch_sub, super::support_cs::fetch_sub_never_last)]
+fn c34_mpsc_schedule_k4__rest() {
+    mpsc_schedule_rest::<4, 2, false>();
+}
+
+// @check props=C34 tier=quick
+// @desc mpsc FIFO order with observable values: clone the sender, send v1 through the original, send v2 through the clone, poll, send v3 through the clone, poll, poll, poll with v1, v2, v3 any u8: the polls return Some(v1), Some(v2), Some(v3), Pending in this order (push_back/pop_front pairing of mpsc.rs); the amortized growth of the 64-element queue buffer is asserted unreachable
+// @bounds one operation sequence (7 channel operations), 3 symbolic u8 values, 2 sender handles, 1 waker; no loop (unwind 2)
+// @assume critical_section::acquire/release stubbed by no-ops (support_cs.rs): a critical section is a block no other operation interleaves with; true parallelism inside it is outside the claim
+// @assume AtomicUsize::fetch_sub stubbed (support_cs.rs fetch_sub_never_last: decrements, reports "other references exist"): the shared state behind an Arc is never destroyed or freed; Drop impls of the channel handle types run for real, Arc::drop_slow and deallocation are outside the claim
+// @assume each poll step polls a fresh MpscReceiver::receive() future once (the future's only state is a clone of the shared Arc)
+// @assume alloc::raw_vec::min_non_zero_cap stubbed by a panicking function (support_cs.rs growth_unreachable): a CHECKED obligation (the panic must be proved unreachable), it removes the allocation of a grown buffer from the formula
+// @enc dcps::channels::mpsc::mpsc_channel
+// @enc dcps::channels::mpsc::MpscSender::send
+// @enc <dcps::channels::mpsc::MpscSender as Clone>::clone
+// @enc dcps::channels::mpsc::MpscReceiver::receive
+// @enc <dcps::channels::mpsc::MpscReceiverFuture as Future>::poll
+#[kani::proof]
+#[kani::unwind(2)]
+#[kani::stub(critical_section::acquire, super::support_cs::cs_acquire)]
+#[kani::stub(critical_section::release, super::support_cs::cs_release)]
+#[kani::stub(core::sync::atomic::Atomic::<usize>::fetch_sub, super::support_cs::fetch_sub_never_last)]
+#[kani::stub(alloc::raw_vec::min_non_zero_cap, super::support_cs::growth_unreachable)]
+fn c34_mpsc_fifo_three_values() {
+    mpsc_fifo_three_values();
+}
+
+// @check props=C34 tier=quick known=KF-C34-1
+// @desc mpsc (trigger of KF-C34-1): after any 2-operation prefix that keeps a sender alive and leaves the queue empty and the receiver alive, every sender is dropped and the receiver polls once: the drop of the last sender must wake a parked receiver and the poll must be Ready(None). Expected to FAIL: MpscInner::is_closed is never set, MpscSender has no Drop impl
+// @bounds prefix of 2 symbolic operations, then <= 2 sender drops, then 1 poll; <= 2 senders, 1 waker, element type (); unwind 4
+// @assume critical_section::acquire/release stubbed by no-ops (support_cs.rs): a critical section is a block no other operation interleaves with; true parallelism inside it is outside the claim
+// @assume AtomicUsize::fetch_sub stubbed (support_cs.rs fetch_sub_never_last: decrements, reports "other references exist"): the shared state behind an Arc is never destroyed or freed; Drop impls of the channel handle types run for real, Arc::drop_slow and deallocation are outside the claim
+// @assume each poll step polls a fresh MpscReceiver::receive() future once (the future's only state is a clone of the shared Arc)
+// @assume trigger: the live-sender count reaches 0 while the queue is empty and the receiver exists
+// @enc dcps::channels::mpsc::MpscSender::send
+// @enc <dcps::channels::mpsc::MpscReceiverFuture as Future>::poll
+#[kani::proof]
+#[kani::unwind(4)]
+#[kani::stub(critical_section::acquire, super::support_cs::cs_acquire)]
+#[kani::stub(critical_section::release, super::support_cs::cs_release)]
+#[kani::stub(core::sync::atomic::Atomic::<usize>::fetch_sub, super::support_cs::fetch_sub_never_last)]
+fn c34_mpsc_last_sender_drop__known() {
+    mpsc_schedule_last_drop::<2, 2>();
+}
+
+// =====================================================================================
+// thorough tier: longer schedules, two wakers, three sender slots
+// =====================================================================================
+
+// @check props=C34 tier=thorough timeout=1500
+// @desc oneshot: for every schedule of 5 atomic operations from {send(v), drop sender, poll with waker A|B, drop receiver}: the value is delivered exactly once and unchanged; send / sender-drop while the receiver is parked wakes the most recently registered waker; poll is Ready(Err) iff the sender was dropped without sending and Pending iff the sender is alive and nothing was sent; sender operations after the receiver is gone do not panic
+// @bounds k = 5 operations (shorter schedules included as no-op steps), 1 sender, 1 receiver, 2 wakers chosen symbolically at each poll, value any u8; unwind 6 = k + 1 (only loop: the schedule)
+// @assume critical_section::acquire/release stubbed by no-ops (support_cs.rs): a critical section is a block no other operation interleaves with; true parallelism inside it is outside the claim
+// @assume AtomicUsize::fetch_sub stubbed (support_cs.rs fetch_sub_never_last: decrements, reports "other references exist"): the shared state behind an Arc is never destroyed or freed; Drop impls of the channel handle types run for real, Arc::drop_slow and deallocation are outside the claim
+// @assume the two critical sections of OneshotSender::send(self) (store+wake, then Drop of self) run back to back (send consumes the sender; a receiver step between them sees data = Some and returns Ready(Ok))
+// @enc dcps::channels::oneshot::oneshot
+// @enc dcps::channels::oneshot::OneshotSender::send
+// @enc <dcps::channels::oneshot::OneshotSender as Drop>::drop
+// @enc <dcps::channels::oneshot::OneshotReceiver as Future>::poll
+#[kani::proof]
+#[kani::unwind(6)]
+#[kani::stub(critical_section::acquire, super::support_cs::cs_acquire)]
+#[kani::stub(critical_section::release, super::support_cs::cs_release)]
+#[kani::stub(core::sync::atomic::Atomic::<usize>::fetch_sub, super::support_cs::fetch_sub_never_last)]
+fn c34_oneshot_schedule_k5() {
+    oneshot_schedule::<5, true>();
+}
+
+// @check props=C34 tier=thorough timeout=1500
+// @desc oneshot: for every schedule of 6 atomic operations from {send(v), drop sender, poll, drop receiver}: the value is delivered exactly once and unchanged; send / sender-drop while the receiver is parked wakes the registered waker; poll is Ready(Err) iff the sender was dropped without sending and Pending iff the sender is alive and nothing was sent; sender operations after the receiver is gone do not panic
+// @bounds k = 6 operations (shorter schedules included as no-op steps), 1 sender, 1 receiver, 1 waker, value any u8; unwind 7 = k + 1 (only loop: the schedule)
+// @assume critical_section::acquire/release stubbed by no-ops (support_cs.rs): a critical section is a block no other operation interleaves with; true parallelism inside it is outside the claim
+// @assume AtomicUsize::fetch_sub stubbed (support_cs.rs fetch_sub_never_last: decrements, reports "other references exist"): the shared state behind an Arc is never destroyed or freed; Drop impls of the channel handle types run for real, Arc::drop_slow and deallocation are outside the claim
+// @assume the two critical sections of OneshotSender::send(self) (store+wake, then Drop of self) run back to back (send consumes the sender; a receiver step between them sees data = Some and returns Ready(Ok))
+// @enc dcps::channels::oneshot::oneshot
+// @enc dcps::channels::oneshot::OneshotSender::send
+// @enc <dcps::channels::oneshot::OneshotSender as Drop>::drop
+// @enc <dcps::channels::oneshot::OneshotReceiver as Future>::poll
+#[kani::proof]
+#[kani::unwind(7)]
+#[kani::stub(critical_section::acquire, super::support_cs::cs_acquire)]
+#[kani::stub(critical_section::release, super::support_cs::cs_release)]
+#[kani::stub(core::sync::atomic::Atomic::<usize>::fetch_sub, super::support_cs::fetch_sub_never_last)]
+fn c34_oneshot_schedule_k6() {
+    oneshot_schedule::<6, false>();
+}
+
+// @check props=C34 tier=thorough timeout=1500
+// @desc notification: for every schedule of 4 atomic operations from {notify(i), clone sender i->j, drop sender i, poll with waker A|B, drop receiver} on up to 2 senders: a poll after >= 1 unconsumed notify is Ready(Ok) (coalescing accepted: n notifies before a poll give between 1 and n Ready(Ok)), never Ready(Ok) without a notify; notify / last-sender drop while the receiver is parked wakes the most recently registered waker; Ready(Err) iff nothing pending and every sender dropped (sender_count bookkeeping over clone/drop); otherwise Pending
+// @bounds k = 4 operations (shorter included), <= 2 live senders, 1 receiver, 2 wakers; unwind 5 = k + 1
+// @assume critical_section::acquire/release stubbed by no-ops (support_cs.rs): a critical section is a block no other operation interleaves with; true parallelism inside it is outside the claim
+// @assume AtomicUsize::fetch_sub stubbed (support_cs.rs fetch_sub_never_last: decrements, reports "other references exist"): the shared state behind an Arc is never destroyed or freed; Drop impls of the channel handle types run for real, Arc::drop_slow and deallocation are outside the claim
+// @assume NotificationSender::clone is two steps (sender_count += 1 in a critical section, then Arc clone) executed back to back; the cloning thread holds a live sender, so the count is >= 1 in between
+// @enc dcps::channels::notification::notification
+// @enc dcps::channels::notification::NotificationSender::notify
+// @enc <dcps::channels::notification::NotificationSender as Clone>::clone
+// @enc <dcps::channels::notification::NotificationSender as Drop>::drop
+// @enc <dcps::channels::notification::NotificationReceiver as Future>::poll
+#[kani::proof]
+#[kani::unwind(5)]
+#[kani::stub(critical_section::acquire, super::support_cs::cs_acquire)]
+#[kani::stub(critical_section::release, super::support_cs::cs_release)]
+#[kani::stub(core::sync::atomic::Atomic::<usize>::fetch_sub, super::support_cs::fetch_sub_never_last)]
+fn c34_notification_schedule_k4_two_wakers() {
+    notification_schedule::<4, 2, true>();
+}
+
+// @check props=C34 tier=thorough timeout=1500
+// @desc notification: for every schedule of 5 atomic operations from {notify(i), clone sender i->j, drop sender i, poll, drop receiver} on up to 3 senders: a poll after >= 1 unconsumed notify is Ready(Ok) (coalescing accepted: n notifies before a poll give between 1 and n Ready(Ok)), never Ready(Ok) without a notify; notify / last-sender drop while the receiver is parked wakes the registered waker; Ready(Err) iff nothing pending and every sender dropped (sender_count bookkeeping over clone/drop); otherwise Pending
+// @bounds k = 5 operations (shorter included), <= 3 live senders, 1 receiver, 1 waker; unwind 6 = k + 1
+// @assume critical_section::acquire/release stubbed by no-ops (support_cs.rs): a critical section is a block no other operation interleaves with; true parallelism inside it is outside the claim
+// @assume AtomicUsize::fetch_sub stubbed (support_cs.rs fetch_sub_never_last: decrements, reports "other references exist"): the shared state behind an Arc is never destroyed or freed; Drop impls of the channel handle types run for real, Arc::drop_slow and deallocation are outside the claim
+// @assume NotificationSender::clone is two steps (sender_count += 1 in a critical section, then Arc clone) executed back to back; the cloning thread holds a live sender, so the count is >= 1 in between
 // @enc dcps::channels::notification::notification
 // @enc dcps::channels::notification::NotificationSender::notify
 // @enc <dcps::channels::notification::NotificationSender as Clone>::clone
@@ -526,91 +718,67 @@ fn notification_schedule<const K: usize>() {
 #[kani::unwind(6)]
 #[kani::stub(critical_section::acquire, super::support_cs::cs_acquire)]
 #[kani::stub(critical_section::release, super::support_cs::cs_release)]
+#[kani::stub(core::sync::atomic::Atomic::<usize>::fetch_sub, super::support_cs::fetch_sub_never_last)]
 fn c34_notification_schedule_k5() {
-    notification_schedule::<5>();
-}
-
-// ------------------------------------------------------------------------------------
-// thorough tier: longer schedules
-// ------------------------------------------------------------------------------------
-
-// @check props=C34 tier=thorough timeout=1500
-// @desc oneshot: as c34_oneshot_schedule_k5 with 7 operations
-// @bounds k = 7 operations, 1 sender, 1 receiver, 2 wakers; unwind 8
-// @assume critical_section::acquire/release stubbed by no-ops (support_cs.rs)
-// @assume the two critical sections of OneshotSender::send(self) run back to back
-// @enc dcps::channels::oneshot::OneshotSender::send
-// @enc <dcps::channels::oneshot::OneshotReceiver as Future>::poll
-#[kani::proof]
-#[kani::unwind(8)]
-#[kani::stub(critical_section::acquire, super::support_cs::cs_acquire)]
-#[kani::stub(critical_section::release, super::support_cs::cs_release)]
-fn c34_oneshot_schedule_k7() {
-    oneshot_schedule::<7>();
+    notification_schedule::<5, 3, false>();
 }
 
 // @check props=C34 tier=thorough timeout=1500
-// @desc mpsc (negated trigger of KF-C34-1): as c34_mpsc_schedule_k5__rest with 7 operations
-// @bounds k = 7 operations, <= 3 live senders, 1 receiver, 2 wakers; unwind 8
-// @assume critical_section::acquire/release stubbed by no-ops (support_cs.rs)
-// @assume each poll step polls a fresh MpscReceiver::receive() future once
+// @desc mpsc (negated trigger of KF-C34-1), element type (): for every schedule of 4 atomic operations from {send(i), clone sender i->j, drop sender i, poll with waker A|B, drop receiver} on up to 2 senders that never enters the state "every sender dropped, queue empty, receiver alive": send always succeeds; every poll is Ready(Some) iff the number of sends exceeds the number of receives (each sent element received exactly once, also after every sender is gone), Pending iff the queue is empty (and then a sender is alive), Ready(None) only if queue empty and no sender left; a send while the receiver is parked wakes the most recently registered waker
+// @bounds k = 4 operations (shorter included), <= 2 live senders, 1 receiver, 2 wakers, element type () (queue = counter; value identity / FIFO order: see c34_mpsc_fifo_three_values); unwind 5 = k + 1
+// @assume critical_section::acquire/release stubbed by no-ops (support_cs.rs): a critical section is a block no other operation interleaves with; true parallelism inside it is outside the claim
+// @assume AtomicUsize::fetch_sub stubbed (support_cs.rs fetch_sub_never_last: decrements, reports "other references exist"): the shared state behind an Arc is never destroyed or freed; Drop impls of the channel handle types run for real, Arc::drop_slow and deallocation are outside the claim
+// @assume each poll step polls a fresh MpscReceiver::receive() future once (the future's only state is a clone of the shared Arc)
+// @assume negated trigger of KF-C34-1: kani::assume(!(live senders == 0 && queue empty && receiver alive)) after every sender drop and every poll
+// @enc dcps::channels::mpsc::mpsc_channel
 // @enc dcps::channels::mpsc::MpscSender::send
+// @enc <dcps::channels::mpsc::MpscSender as Clone>::clone
+// @enc dcps::channels::mpsc::MpscReceiver::receive
 // @enc <dcps::channels::mpsc::MpscReceiverFuture as Future>::poll
 #[kani::proof]
-#[kani::unwind(8)]
+#[kani::unwind(5)]
 #[kani::stub(critical_section::acquire, super::support_cs::cs_acquire)]
 #[kani::stub(critical_section::release, super::support_cs::cs_release)]
-fn c34_mpsc_schedule_k7__rest() {
-    mpsc_schedule_rest::<7>();
+#[kani::stub(core::sync::atomic::Atomic::<usize>::fetch_sub, super::support_cs::fetch_sub_never_last)]
+fn c34_mpsc_schedule_k4_two_wakers__rest() {
+    mpsc_schedule_rest::<4, 2, true>();
 }
 
-// @check props=C34 tier=thorough timeout=1500 known=KF-C34-1
-// @desc mpsc (trigger of KF-C34-1): as c34_mpsc_last_sender_drop__known with a 5-operation prefix
-// @bounds prefix of 5 symbolic operations, then <= 3 sender drops, then 1 poll; unwind 6
-// @assume critical_section::acquire/release stubbed by no-ops (support_cs.rs)
-// @assume trigger: the live-sender count reaches 0 (last MpscSender dropped)
+// @check props=C34 tier=thorough timeout=1500
+// @desc mpsc (negated trigger of KF-C34-1), element type (): for every schedule of 5 atomic operations from {send(i), clone sender i->j, drop sender i, poll, drop receiver} on up to 3 senders that never enters the state "every sender dropped, queue empty, receiver alive": send always succeeds; every poll is Ready(Some) iff the number of sends exceeds the number of receives (each sent element received exactly once, also after every sender is gone), Pending iff the queue is empty (and then a sender is alive), Ready(None) only if queue empty and no sender left; a send while the receiver is parked wakes the registered waker
+// @bounds k = 5 operations (shorter included), <= 3 live senders, 1 receiver, 1 waker, element type () (queue = counter; value identity / FIFO order: see c34_mpsc_fifo_three_values); unwind 6 = k + 1
+// @assume critical_section::acquire/release stubbed by no-ops (support_cs.rs): a critical section is a block no other operation interleaves with; true parallelism inside it is outside the claim
+// @assume AtomicUsize::fetch_sub stubbed (support_cs.rs fetch_sub_never_last: decrements, reports "other references exist"): the shared state behind an Arc is never destroyed or freed; Drop impls of the channel handle types run for real, Arc::drop_slow and deallocation are outside the claim
+// @assume each poll step polls a fresh MpscReceiver::receive() future once (the future's only state is a clone of the shared Arc)
+// @assume negated trigger of KF-C34-1: kani::assume(!(live senders == 0 && queue empty && receiver alive)) after every sender drop and every poll
+// @enc dcps::channels::mpsc::mpsc_channel
+// @enc dcps::channels::mpsc::MpscSender::send
+// @enc <dcps::channels::mpsc::MpscSender as Clone>::clone
+// @enc dcps::channels::mpsc::MpscReceiver::receive
 // @enc <dcps::channels::mpsc::MpscReceiverFuture as Future>::poll
 #[kani::proof]
 #[kani::unwind(6)]
 #[kani::stub(critical_section::acquire, super::support_cs::cs_acquire)]
 #[kani::stub(critical_section::release, super::support_cs::cs_release)]
-fn c34_mpsc_last_sender_drop_p5__known() {
-    mpsc_schedule_last_drop::<5>();
+#[kani::stub(core::sync::atomic::Atomic::<usize>::fetch_sub, super::support_cs::fetch_sub_never_last)]
+fn c34_mpsc_schedule_k5__rest() {
+    mpsc_schedule_rest::<5, 3, false>();
 }
 
-// @check props=C34 tier=thorough timeout=1500
-// @desc notification: as c34_notification_schedule_k5 with 7 operations
-// @bounds k = 7 operations, <= 3 live senders, 1 receiver, 2 wakers; unwind 8
-// @assume critical_section::acquire/release stubbed by no-ops (support_cs.rs)
-// @assume NotificationSender::clone is two steps executed back to back
-// @enc dcps::channels::notification::NotificationSender::notify
-// @enc <dcps::channels::notification::NotificationReceiver as Future>::poll
-#[kani::proof]
-#[kani::unwind(8)]
-#[kani::stub(critical_section::acquire, super::support_cs::cs_acquire)]
-#[kani::stub(critical_section::release, super::support_cs::cs_release)]
-fn c34_notification_schedule_k7() {
-    notification_schedule::<7>();
-}
-
-// ---- temporary measurement harnesses ----
-// @check props=C34 tier=quick
-// @desc tmp
-// @bounds tmp
+// @check props=C34 tier=thorough known=KF-C34-1 timeout=1500
+// @desc mpsc (trigger of KF-C34-1): as c34_mpsc_last_sender_drop__known with a 3-operation prefix
+// @bounds prefix of 3 symbolic operations, then <= 2 sender drops, then 1 poll; <= 2 senders, 1 waker, element type (); unwind 4
+// @assume critical_section::acquire/release stubbed by no-ops (support_cs.rs): a critical section is a block no other operation interleaves with; true parallelism inside it is outside the claim
+// @assume AtomicUsize::fetch_sub stubbed (support_cs.rs fetch_sub_never_last: decrements, reports "other references exist"): the shared state behind an Arc is never destroyed or freed; Drop impls of the channel handle types run for real, Arc::drop_slow and deallocation are outside the claim
+// @assume each poll step polls a fresh MpscReceiver::receive() future once (the future's only state is a clone of the shared Arc)
+// @assume trigger: the live-sender count reaches 0 while the queue is empty and the receiver exists
+// @enc dcps::channels::mpsc::MpscSender::send
+// @enc <dcps::channels::mpsc::MpscReceiverFuture as Future>::poll
 #[kani::proof]
 #[kani::unwind(4)]
 #[kani::stub(critical_section::acquire, super::support_cs::cs_acquire)]
 #[kani::stub(critical_section::release, super::support_cs::cs_release)]
-fn c34_tmp_oneshot_k3() {
-    oneshot_schedule::<3>();
-}
-// @check props=C34 tier=quick
-// @desc tmp
-// @bounds tmp
-#[kani::proof]
-#[kani::unwind(5)]
-#[kani::stub(critical_section::acquire, super::support_cs::cs_acquire)]
-#[kani::stub(critical_section::release, super::support_cs::cs_release)]
-fn c34_tmp_oneshot_k4() {
-    oneshot_schedule::<4>();
+#[kani::stub(core::sync::atomic::Atomic::<usize>::fetch_sub, super::support_cs::fetch_sub_never_last)]
+fn c34_mpsc_last_sender_drop_p3__known() {
+    mpsc_schedule_last_drop::<3, 2>();
 }
